@@ -1,4 +1,5 @@
 import AC.OptProof
+import AC.OptTie
 /-! # C10 — chain optimisation only removes elements and keeps the chain valid
 
 Model: `P.OptX.optimize` (alg/opt/opt.go, index based, with the conservative re-counting of
@@ -33,5 +34,23 @@ theorem C10_uses_unique (c : Chain) (hnd : c.Nodup) (l : Nat) (hl : l < c.length
 
 /-- non-vacuity: a valid non-ascending redundant chain -/
 example : IsChain [1,2,3,4,5] := (isChainB_iff _).1 (by decide)
+
+/-! ## `opt.Optimize` as TRANSLATED from opt.go
+
+`AC/Gen/ProgramFns.lean` is regenerated from alg/opt/opt.go on every run (harness/cmd/extract/gotr.go);
+`AC/OptTie.lean` proves the translated function equal to the model (`optimize_tie`: every chain, no panic,
+nil error), loop by loop. The property, stated over the translated Go function itself: -/
+
+/-- the translated `Optimize` on a valid chain returns, without error, a valid chain that is a
+    subsequence of the input, starts at 1, ends at the same value and is not longer -/
+theorem C10_src_optimize (c : Chain) (hc : IsChain c) :
+    ∃ o, AC.Gen.Program.optOptimize c = some (o, none) ∧ IsChain o ∧ o.Sublist c ∧ o.head? = some 1 ∧
+      o.getLast? = c.getLast? ∧ o.length ≤ c.length :=
+  ⟨optimize c, AC.OptTie.optimize_tie c, (C10_optimize c hc).1, (C10_optimize c hc).2.1,
+    (C10_optimize c hc).2.2.1, (C10_optimize c hc).2.2.2, C10_not_longer c hc⟩
+
+/-- on ANY sequence (valid chain or not) the translated `Optimize` neither panics nor reports an error -/
+theorem C10_src_total (c : Chain) : ∃ o, AC.Gen.Program.optOptimize c = some (o, none) :=
+  ⟨_, AC.OptTie.optimize_tie c⟩
 
 end AC.Props.C10
